@@ -25,6 +25,9 @@ theorem readUvarint_go_ext (b y : ByteArray) (pos lim lim' : Nat) (hl : lim ≤ 
     · rw [if_pos h1] at h; simp at h
     · rw [if_neg h1] at h
       rw [if_neg (by omega)]
+      by_cases h10 : i ≥ 10
+      · rw [if_pos h10] at h; simp at h
+      rw [if_neg h10] at h ⊢
       have hg : get (b ++ y) (pos + i) = get b (pos + i) := get_append_left (by omega)
       simp only at h ⊢
       rw [hg]
@@ -39,18 +42,19 @@ theorem readUvarint_ext (b y : ByteArray) (pos lim lim' v n : Nat) (hl : lim ≤
   unfold readUvarint at h ⊢
   exact readUvarint_go_ext b y pos lim lim' hl hl' _ _ _ _ _ _ h
 
-theorem recLoop_ext (recs : Array (Nat × Nat)) (inp y : ByteArray) :
-    ∀ (n p i p1 : Nat), readTail.recLoop recs inp n p i = some (p1, .eof) →
-      readTail.recLoop recs (inp ++ y) n p i = some (p1, .eof) := by
+theorem recLoop_ext (inp y : ByteArray) :
+    ∀ (n p : Nat) (acc : Array (Nat × Nat)) (p1 : Nat) (parsed : Array (Nat × Nat)),
+      readTail.recLoop inp n p acc = some (p1, .eof, parsed) →
+      readTail.recLoop (inp ++ y) n p acc = some (p1, .eof, parsed) := by
   have hsz : inp.size ≤ (inp ++ y).size := by rw [ByteArray.size_append]; omega
   intro n
   induction n with
   | zero =>
-    intro p i p1 h
+    intro p acc p1 parsed h
     rw [readTail.recLoop.eq_1] at h ⊢
     exact h
   | succ n ih =>
-    intro p i p1 h
+    intro p acc p1 parsed h
     rw [readTail.recLoop.eq_2] at h ⊢
     cases hu1 : readUvarint inp p inp.size with
     | eof _ => rw [hu1] at h; simp at h
@@ -72,10 +76,7 @@ theorem recLoop_ext (recs : Array (Nat × Nat)) (inp y : ByteArray) :
         by_cases hb : b ≥ 2 ^ 63
         · rw [if_pos hb] at h; simp at h
         rw [if_neg hb] at h ⊢
-        by_cases hr : recs.getD i (0, 0) ≠ (a, b)
-        · rw [if_pos hr] at h; simp at h
-        rw [if_neg hr] at h ⊢
-        exact ih _ _ _ h
+        exact ih _ _ _ _ h
 
 /-! ### index and footer cut short -/
 
@@ -88,7 +89,7 @@ theorem readTail_trunc (flags : Nat) (recs : Array (Nat × Nat))
     (readTail flags recs r).2 ≠ .eof := by
   intro hcl
   obtain ⟨r', hr'⟩ : ∃ r', readTail flags recs r = (r', .eof) := ⟨(readTail flags recs r).1, by rw [← hcl]⟩
-  obtain ⟨_, _, _, s4, s5, _, _, _, _, _, _, _, k, p1, su, sl, sp, _⟩ := readTail_sound flags recs r r' hr'
+  obtain ⟨_, _, _, s4, s5, _, _, _, _, _, _, _, k, p1, parsed, su, sl, _, sp, _⟩ := readTail_sound flags recs r r' hr'
   -- the run on the full input
   let rF : RdState := { r with inp := r.inp ++ rest }
   have hF : rF.inp = pre ++ (indexBytes recs.toList ++ footerBytes flags (indexBytes recs.toList).size) ++
@@ -96,7 +97,7 @@ theorem readTail_trunc (flags : Nat) (recs : Array (Nat × Nat))
     show r.inp ++ rest = _
     rw [hinp, hsplit, ByteArray.append_empty, ByteArray.append_assoc]
   have hrF := readTail_emit flags recs hrec hn hisz hfl rF pre ByteArray.empty hF hpos
-  obtain ⟨_, _, _, t4, t5, _, _, _, _, _, _, _, kF, p1F, tu, tl, tp, _⟩ := readTail_sound flags recs rF _ hrF
+  obtain ⟨_, _, _, t4, t5, _, _, _, _, _, _, _, kF, p1F, parsedF, tu, tl, _, tp, _⟩ := readTail_sound flags recs rF _ hrF
   have hszF : rF.inp.size = r.inp.size + rest.size := ByteArray.size_append
   have e1 := readUvarint_ext r.inp rest (r.pos + 1) r.inp.size rF.inp.size _ _ (Nat.le_refl _) (by omega) su
   have hk : k = kF := by
@@ -104,11 +105,11 @@ theorem readTail_trunc (flags : Nat) (recs : Array (Nat × Nat))
     simp only [UvRes.ok.injEq, true_and] at this
     exact this
   subst hk
-  have e2 := recLoop_ext recs r.inp rest _ _ _ _ sl
+  have e2 := recLoop_ext r.inp rest _ _ _ _ _ sl
   have hp1 : p1 = p1F := by
-    have : some (p1, Status.eof) = some (p1F, Status.eof) := by rw [← e2]; exact tl
-    simp only [Option.some.injEq, Prod.mk.injEq, and_true] at this
-    exact this
+    have : some (p1, Status.eof, parsed) = some (p1F, Status.eof, parsedF) := by rw [← e2]; exact tl
+    simp only [Option.some.injEq, Prod.mk.injEq, true_and] at this
+    exact this.1
   subst hp1
   dsimp only at t4 t5 tp
   have hTs : (indexBytes recs.toList ++ footerBytes flags (indexBytes recs.toList).size).size = T.size + rest.size := by
